@@ -110,6 +110,7 @@ fn main() {
             probe(&src, w, q);
         }
         "probe-scenarios" => probe_scenarios(),
+        "probe-explicit" => probe_explicit(&args[2], args.get(3).and_then(|s| s.parse().ok()).unwrap_or(2), args.get(4).and_then(|s| s.parse().ok()).unwrap_or(1000), args.get(5).and_then(|s| s.parse().ok()).unwrap_or(200000)),
         "judge" => {
             for src in &args[2..] {
                 println!("{:?}\n  ref: {:?}", src, refeval::evaluate(src, 20000));
@@ -247,5 +248,28 @@ fn probe_scenarios() {
                 }
             }
         }
+    }
+}
+
+fn probe_explicit(filter: &str, workers: usize, quantum: usize, cap: usize) {
+    let mut all = sim::scenarios::messaging_all(true);
+    all.extend(sim::scenarios::bin_all());
+    all.extend(sim::scenarios::fail_all());
+    for sc in all {
+        if !sc.id.contains(filter) {
+            continue;
+        }
+        let unit = sim::driver::compile_scenario(&sc).unwrap();
+        let cfg = sim::system::Config { workers, quantum, request_early: true, io: sc.io, defer_effects: false };
+        let mut stats = sim::explore::Stats::default();
+        let mut findings = vec![];
+        let budget = infra::Budget::new(120.0);
+        let mut make = || -> Box<dyn sim::explore::Monitor> { Box::new(sim::monitors::StdMonitor { conserve: true, ..Default::default() }) };
+        let mut outcomes = std::collections::BTreeSet::new();
+        let mut on_terminal = |sys: &mut sim::system::System| { outcomes.insert(sim::outcome(sys)); };
+        let t = Instant::now();
+        let c = sim::explore::explore_states(&cfg, &unit.bytecode(), &mut make, &mut stats, &mut findings, 10, cap, &mut on_terminal, &budget);
+        println!("{} {}: complete={:?} states={} transitions={} terminal_runs={} max_depth={} outcomes={} findings={} in {:.1}s",
+            sc.id, cfg.label(), c, stats.states, stats.transitions, stats.runs, stats.max_depth, outcomes.len(), findings.len(), t.elapsed().as_secs_f64());
     }
 }
